@@ -223,3 +223,8 @@ Proof.
   induction s as [|c s IH]; cbn [flat_map]; [constructor|].
   apply Forall_app. split; [apply nbt_esc_no_newline; lia|assumption].
 Qed.
+
+(* SNBT of Minecraft <= 1.21.4 cannot read the \t that repr writes for a tab *)
+Theorem nbt_legacy_refuted :
+  exists s, forallb cp_ok s = true /\ nbt_unquote_legacy (nbt_emit (fun _ => true) s) = None.
+Proof. exists [97; 9; 98]. split; reflexivity. Qed.
